@@ -98,6 +98,18 @@ def gen_inputs(run):
         toks = tokens_of(base)
         for _ in range(5):
             out.append(("mutant", " ".join(mutate(rng, toks)).encode()))
+    # programs that reach the semantic rules and the late-bound transformations: valid units, every planted fault, and the
+    # units aimed at the rules (few names reused across units; instances of declared, undeclared and standard function blocks
+    # invoked in every argument shape; types of every kind referenced, declared or not)
+    import rules_corr
+    for _ in range(60 if not thorough else 1200):
+        u = gen_sem.gen_valid(rng)
+        out.append(("semantic-valid", gen_sem.render(u).encode()))
+        for code, what, mu in gen_sem.mutants(u, rng)[: (6 if not thorough else 40)]:
+            out.append(("semantic-fault", gen_sem.render(mu).encode()))
+    for _ in range(500 if not thorough else 10000):
+        out.append(("semantic-aimed", rules_corr.gen_unit(rng).encode()))
+        out.append(("semantic-aimed-types", rules_corr.gen_type_unit(rng).encode()))
     lits = ["T#0.5d", "T#99999999999999999d", "T#18446744073709551617s", "T#-9223372036854775808s", "T#1.1234567890123456s", "%I1", "%IX4294967296",
             "%MW1.99999999999999999999", "TOD#12:00:256", "TOD#25:61:61", "D#99999-99-99", "D#2024-02-30", "DT#2024-01-01-24:00:00",
             "340282366920938463463374607431768211456", "16#" + "F" * 40, "2#" + "1" * 200, "8#" + "7" * 60, "1" * 400, "1.0E400", "1.0E-400",
